@@ -273,6 +273,53 @@ PROPS["C12"] = {
 }
 
 
+def src_oracle(pid, res, driver):
+    findings = []
+    data = res.stream_data.get("SRC")
+    if data:
+        outs = {}
+        for c, o in zip(data["cases"], data["impl"].get("debug", [])):
+            t = c.split(" ")
+            if t[2] == "F":
+                outs[t[1]] = (c, o)
+        for cid, (c, o) in outs.items():
+            if not cid.endswith("i"):
+                continue
+            other = outs.get(cid[:-1] + "b")
+            if not other:
+                continue
+            t = c.split(" ")
+            bps, nb = int(t[5]), int(t[7])
+            if nb != (bps + 7) // 8:
+                # a byte fill whose width disagrees with the declared width must be an error (C17), not checked here
+                continue
+            a = o.split(" ", 1)[1] if " " in o else o
+            b = other[1].split(" ", 1)[1] if " " in other[1] else other[1]
+            if a != b:
+                findings.append({"case": c[:3000], "impl": (o[:300] + " || " + other[1][:300]),
+                                 "why": "integer and byte delivery of the same samples give different buffer/context/frame results"})
+    findings += [f for f in enc_oracle("C01", res, driver, "DLV")]
+    return findings
+
+
+SRC_STREAM = {"name": "SRC", "quick": 2500, "thorough": 40000, "profiles": ["debug", "release"],
+              "nontrivial": lambda c, o: c.split(" ")[2] == "F" and " ok " in o}
+
+PROPS["C14"] = {
+    "coq": "theories/Props/C14.v",
+    "theorems": ["C14_fill_equiv", "C14_context_equiv", "C14_bytes_roundtrip", "C14_no_stale_data"],
+    "streams": "SRC+DLV",
+    "rule": "SRC: unit-level deinterleave (1..8 channels, strides 1..64, source shorter/equal to the buffer, buffer pre-filled with "
+            "recognisable stale values), le_bytes_to_i32s / i32s_to_le_bytes (widths 0..5, extreme bytes, lengths not multiples), and "
+            "FrameBuf+Context filled with a full block then a second block (0, shorter, full, oversized, off-by-one) through BOTH the "
+            "integer and the byte path with identical data, then read back by encoding a verbatim frame. Non-trivial = a two-fill case "
+            "that succeeded." ,
+    "oracle": src_oracle,
+    "assumptions": ["hand-written model of source.rs/arrayutils.rs delivery functions tied by the SRC stream",
+                    "byte-identical streams for both deliveries are additionally checked end-to-end by the DLV stream"],
+}
+
+
 def check_coq(pid, spec, res):
     """Build the proofs; returns True when the property's theorems are all checked."""
     closure = fv.dep_closure(spec["coq"])
@@ -375,6 +422,9 @@ def run_check(pid, spec, tier, seed, replay):
         spec["streams"] = [dict(ENC_STREAM), dict(CNT_STREAM)]
     if spec.get("streams") == "ENC+DLV":
         spec["streams"] = [dict(ENC_STREAM), dict(DLV_STREAM)]
+    if spec.get("streams") == "SRC+DLV":
+        spec["streams"] = [dict(SRC_STREAM), dict(DLV_STREAM)]
+        spec["rule"] = spec["rule"] + DLV_RULE
     if spec.get("streams") == "DLV":
         spec["streams"] = [dict(DLV_STREAM)]
     if spec.get("rule") == "ENC+DLV":
@@ -447,7 +497,7 @@ def run_check(pid, spec, tier, seed, replay):
             found_input = True
             if len([v for v in res.violations if v.get("kind") == "counterexample"]) < 5:
                 res.violations.append({"kind": "counterexample", "has_input": True, "why": cls["why"], **d})
-        else:
+        elif not found_input:
             if len([v for v in res.violations if v.get("kind") == "correspondence"]) < 3:
                 res.violations.append({"kind": "correspondence", "has_input": False, "why": cls["why"],
                                        "no_longer_checks": "correspondence stream %s" % d["stream"], **d})
